@@ -568,6 +568,10 @@ func ruleWriterWidths(c *Ctx) {
 							if sz != pair.width {
 								bad = append(bad, fmt.Sprintf("%s reads into a %s", pair.r, bt.Name()))
 							}
+							// the 4-byte value is widened to int afterwards: it must be read unsigned, as it was written
+							if pair.width == 4 && bt.Kind() == types.Int32 {
+								bad = append(bad, fmt.Sprintf("%s reads the unsigned 32-bit number the writer emits into an int32: values of 2^31 and above (a 3GB compress threshold) come back negative after the reload", pair.r))
+							}
 						}
 					}
 					if !strings.Contains(e.Args[1].Key(), "BigEndian") {
@@ -577,7 +581,7 @@ func ruleWriterWidths(c *Ctx) {
 			}
 		})
 	}
-	c.check(len(bad) == 0, "integer-widths", "cache/cache.go", "cache/cache.go", "uint32/uint64 writers and readers agree on width (4/8) and byte order (big endian)", strings.Join(uniq(bad), " || "), n)
+	c.check(len(bad) == 0, "integer-widths", "cache/cache.go", "cache/cache.go", "uint32/uint64 writers and readers agree on width (4/8), signedness and byte order (big endian)", strings.Join(uniq(bad), " || "), n)
 }
 
 // appendChain flattens append(append(base, a...), b...) into base and [a, b].
